@@ -14,7 +14,7 @@ import Nstd.Variant.Ieee
     get v w <path>         var[v] = <const walk in var[w]>
     swap v w
     stats                  (driver only) coverage counters read off the model: copy-on-write branches, depths, refused lines
-    selfapp l|a|m|n|e      probe of the finding "self-append" on a local Variant (prints container sizes along `.back()`)
+    selfapp l|a|m|n|e|k    probe of the finding "self-append" on a local Variant (prints container sizes along `.back()`)
     <path> = `.` | steps joined by `/`:  l<i> (list item)  a<i> (array item)  m<khex> (map value)
     <src>  = v<k> | <lit>
     <lit>  = n | b0 | b1 | d<16 hex digits> | i<int> | u<nat> | l<int> | q<nat> | s<hex>
@@ -317,6 +317,16 @@ def selfProbe (k : String) : Option (List Nat) :=
         let s2 ← dstep ieee s1 (.mut 0 [] (.lapp (.var 1)))
         let s3 ← dstep ieee s2 (.mut 1 [] .clear)
         run s3 [.li 0] .lapp)
+  else if k == "e" then
+    -- v.toList().append(Variant(1)); v.toList().back() = v
+    (do let s1 ← dstep ieee dinit (.mut 0 [] (.lapp (.lit (.int 1))))
+        let s' ← selfAssign ieee s1 0 [] (.li 0)
+        pure (backChain 5 s'.h (some (s'.vars 0))))
+  else if k == "k" then
+    -- v.toMap().append("k", Variant(1)); v.toMap().append("k", v)   (existing key: HashMap::insert runs *it = value)
+    (do let s1 ← dstep ieee dinit (.mut 0 [] (.mput [107] (.lit (.int 1))))
+        let s' ← selfAssign ieee s1 0 [] (.mk [107])
+        pure (backChain 5 s'.h (some (s'.vars 0))))
   else none
 
 def stepLine (ss : Deep.DState × Stats) (ws : List String) : (Deep.DState × Stats) × String :=
@@ -327,10 +337,10 @@ def stepLine (ss : Deep.DState × Stats) (ws : List String) : (Deep.DState × St
   | ["selfapp", k] =>
     -- finding "self-append": outside the precondition `mutOk`.  The line answers with what the *model of the real
     -- code* (`Deep.selfLink`: accessor chain, copy of the current v, link — DeepSelf.lean) predicts: the container
-    -- sizes along v, v.back(), v.back().back(), … in the cyclic heap.  (`e`, the element assignment, is not modelled.)
+    -- sizes along v, v.back(), v.back().back(), … in the cyclic heap.  (`e`, `k`: the element assignment forms, `Deep.selfAssign`.)
     (ss, match selfProbe k with
          | some sizes => s!"selfapp {k} " ++ " ".intercalate (sizes.map toString)
-         | none => if k == "e" then "selfapp e -" else "bad-op")
+         | none => "bad-op")
   | _ =>
     let st := { st with lines := st.lines + 1 }
     match parseOp ws with
